@@ -666,12 +666,20 @@ def run(ctx):
                 "generated Score/Part arguments (ties, chords, grace notes, rests, unpitched notes, 1-3 parts, part groups) x "
                 "sampled interval classes weighted towards 'down' and unison classes, plus one fixed part under all 78 "
                 "interval/direction pairs as Part and as Score.  Non-trivial = table rows with alter<>0 or a step that "
-                "crosses the octave boundary; driver cases containing a tie chain or grace note with an interval other than P1.")
+                "crosses the octave boundary; driver cases containing a tie chain or grace note with an interval other than P1.  "
+                "HISTORY stream (state carried on the Interval argument between calls; shared with C12): ONE real score.Interval "
+                "per history (all 39 classes x 2 directions twice + 60 + 60 compound inits), 5-9 generated operations + closing "
+                "sweep: transpose(part of 1-3 notes incl. tie chains and grace notes, iv) 18%, transpose_note 14%, .semitones 16%, "
+                "change_quality 22%, quality:= 8%, number:= 8%, direction:= 6%, validate 5%, str 3%; after EVERY step the result "
+                "(step, alter, octave of every note; the argument part untouched) is judged by the diatonic specification at the "
+                "table size of the object's CURRENT fields and against a freshly constructed Interval of those fields.")
     ctx.trusted = ["Coq 8.16.1 kernel incl. vm_compute",
                    "T2 tabulator and flattening/fingerprint code in harness/props/c16.py (runs the real functions, prints Coq literals; "
                    "step letters are interned C=0..B=6, alter None is read as 0)",
                    "Python-side diatonic oracle used to name the failing input", "determinism of the tabulated pure functions",
-                   "fingerprints of non-pitch attributes are compared as 48-bit SHA-1 prefixes inside Coq (full strings in Python)"]
+                   "fingerprints of non-pitch attributes are compared as 48-bit SHA-1 prefixes inside Coq (full strings in Python)",
+                   "history stream: the operation runner / field reader of harness/props/c12.py (run_iv_history) and the printing of "
+                   "observed histories as Coq terms"]
     ctx.assumptions = ["interval numbers 1..7 (the 39 classes of INTERVALCLASSES); compound intervals are outside the property",
                        "alter None and alter 0 denote the same spelling"]
     T = gen()
